@@ -46,6 +46,8 @@ func runC13(c *Ctx) {
 		return
 	}
 	info := pk.TypesInfo
+	// the initial state a new subscriber of a set receives is a copy, never the live set
+	checkInitialStateIsSnapshot(r, p, pkg, "readableSet", "OnUpdate")
 
 	// the subscriber registries are ds.Lists whose handles the unsubscribe closures remove (possibly
 	// twice): the list's handle validation and bookkeeping are part of what exactly-once rests on
